@@ -12,7 +12,7 @@ from . import contracts as C
 from .engine import FunctionVerifier, VerifError, State
 from .calls import Engine
 from . import externals as X
-from .solve import check_with_retry
+from .solve import check_with_retry, check_canary
 
 HERE = os.path.dirname(os.path.abspath(__file__))
 CONTRACT_DIR = os.path.join(os.path.dirname(HERE), "contracts")
@@ -117,6 +117,10 @@ def verify_unit(unit, timeout_ms=10000):
             out["file"] = sd.file
         out["gen_s"] = time.time() - t0
         for o in obls:
+            if o.kind == "canary":
+                r = check_canary(o)
+                out.setdefault("canaries", []).append({"id": o.oid, "status": r["status"], "time": round(r["time"], 3)})
+                continue
             r = check_with_retry(o, timeout_ms)
             rec = {
                 "id": o.oid,
@@ -164,6 +168,10 @@ def main(argv):
         if r["error"]:
             print("   ERROR", r["error"])
             bad += 1
+        for c in r.get("canaries", []):
+            if c["status"] != "reachable" or a.v:
+                print("   canary %s %s" % (c["status"], c["id"]))
+                bad += c["status"] == "vacuous"
         for o in r["obligations"]:
             if o["status"] != "unsat" or a.v:
                 print("   %-7s %-70s %.2fs  L%s %s" % (o["status"], o["id"], o["time"], o["line"], o["text"][:50]))
